@@ -195,8 +195,17 @@ func (b *StscBox) SetSingleSampleDescriptionID(sampleDescriptionID uint32) {
 
 // ChunkNrFromSampleNr - get chunk number from sampleNr (one-based)
 func (b *StscBox) ChunkNrFromSampleNr(sampleNr int) (chunkNr, firstSampleInChunk int, err error) {
+	if len(b.Entries) == 0 {
+		return 0, 0, fmt.Errorf("stsc has no entries")
+	}
 	entryNr := b.FindEntryNrForSampleNr(uint32(sampleNr), 0)
+	if entryNr >= uint32(len(b.Entries)) {
+		return 0, 0, fmt.Errorf("sample number %d is before the first stsc entry", sampleNr)
+	}
 	entry := b.Entries[entryNr]
+	if entry.SamplesPerChunk == 0 {
+		return 0, 0, fmt.Errorf("stsc entry %d has zero samples per chunk", entryNr+1)
+	}
 	nrInEntry := (uint32(sampleNr) - entry.FirstSampleNr) / entry.SamplesPerChunk
 	chunkNr = int(entry.FirstChunk + nrInEntry)
 	firstSampleInChunk = int(entry.FirstSampleNr + nrInEntry*entry.SamplesPerChunk)
